@@ -27,6 +27,7 @@ The concrete names used by the `_nonvacuous` witnesses (`nameVP`, `nameVB`, `tok
 for a non-empty result, as `Person.__init__` does).
 -/
 import PybtexModel.Lemmas.Names
+import PybtexModel.Lemmas.NamesCase
 import PybtexModel.Props.C12
 
 namespace Pybtex.Props
@@ -167,6 +168,68 @@ theorem C04_case_of_token_nonvacuous_unicode :
       t ≠ [] ∧ Spec.isLow t = true) ∧
     (∀ t ∈ ["École", "毛x", "ʻakahi", "ǅx", "(毛x", "1ⓐX", "Ⓐb", "{\\'É}cole", "{\\relax 毛}x", "김"].map String.toList,
       t ≠ [] ∧ Spec.isLow t = false) := by
+  decide +kernel
+
+/-- **The case rule without the scanner — bibtex.web's rule — and where pybtex follows it.**
+`Spec.tokenCase` (the rule of `C04_case_of_token` / `C04_matches_spec`) is stated on the token list of
+the shared scanner `scan`; "brace level 0" and "special character" are the scanner's notions there.
+`Spec.tokenCaseBibtex` restates the rule of bibtex.web §§ 397–401 as one pass over the characters
+with a brace counter only (a cased first character decides; else the first brace-level-0 letter; a
+`{` at level 0 immediately followed by a backslash starts a special character, which decides; every
+other group is skipped).  The two agree — and `is_von_name` answers by the scanner-free rule — on
+every non-empty token that starts with a cased character, or that nests at most 100 levels
+(`Spec.maxDepth`, C12) and has no backslash at brace level 1 of an ORDINARY group before its case is
+decided (`Spec.plainGroups`).  Neither proviso can be dropped: `C04_case_bibtex_neg`,
+`C04_overnested_case`. -/
+theorem C04_case_bibtex_partial (t : Str) (hne : t ≠ [])
+    (h : (match t with | c :: _ => isUpperN c || isLowerN c | [] => false) = true ∨
+         (Spec.maxDepth 0 t ≤ maxLevel ∧ Spec.plainGroups 0 t = true)) :
+    Spec.tokenCase t = Spec.tokenCaseBibtex t ∧
+    isVonName t = .ok (decide (Spec.tokenCaseBibtex t = .lower)) := by
+  have key : Spec.tokenCase t = Spec.tokenCaseBibtex t := by
+    rcases h with h | ⟨hd, hp⟩
+    · match t, hne with
+      | c :: r, _ =>
+        simp only [Bool.or_eq_true] at h
+        unfold Spec.tokenCase Spec.tokenCaseBibtex
+        rcases h with h | h
+        · simp [Spec.charCase, h]
+        · have hu : isUpperN c = false := by
+            cases hu : isUpperN c with
+            | false => rfl
+            | true => rw [upper_lower_disjoint hu] at h; cases h
+          simp [Spec.charCase, h, hu]
+    · obtain ⟨toks, ht⟩ := Option.isSome_iff_exists.1 ((C12_scan_total t).2 hd)
+      exact tokenCase_eq_bibtex ht hp
+  refine ⟨key, ?_⟩
+  rw [isVonName_eq hne, Spec.isLow, key]
+
+theorem C04_case_bibtex_partial_nonvacuous :
+    (∀ t ∈ ["{\\'e}cole", "{\\relax von}", "{x}von", "{{\\x}}von", "a{x\\y}", "1{\\'E}x", "}von"].map String.toList,
+      t ≠ [] ∧ Spec.maxDepth 0 t ≤ maxLevel ∧ Spec.plainGroups 0 t = true) ∧
+    Spec.tokenCaseBibtex "{\\relax von}".toList = .lower ∧ Spec.tokenCaseBibtex "{{\\x}}von".toList = .lower ∧
+    Spec.tokenCaseBibtex "1{\\'E}x".toList = .upper ∧
+    -- over-nested but starting with a cased character: the first disjunct
+    (match tokDeepLower with | c :: _ => isUpperN c || isLowerN c | [] => false) = true := by
+  decide +kernel
+
+/-- **Where pybtex does NOT follow bibtex.web's case rule** (the proviso `plainGroups` cannot be
+dropped): in `{x\y}von` the group `{x\y}` is an ordinary group (it does not start with a backslash), so
+bibtex.web skips it and the first brace-level-0 letter `v` makes the token lower-case (a von token).
+pybtex's scanner hands the backslash inside the group out as a brace-level-1 token that starts with
+a backslash, which `is_von_name` takes for a special character without a letter: the token has NO
+case.  `Person('Jean {x\y}von Last')` therefore has no von part (the token is a middle name), while
+without the backslash (`{xy}von`) it has.  (The rule `Spec.tokenCase` follows the scanner here, which
+is why `C04_matches_spec` holds for every string.) -/
+theorem C04_case_bibtex_neg :
+    let t := "{x\\y}von".toList
+    Spec.maxDepth 0 t ≤ maxLevel ∧ Spec.plainGroups 0 t = false ∧
+    Spec.tokenCaseBibtex t = .lower ∧ Spec.tokenCase t = .caseless ∧ isVonName t = .ok false ∧
+    scan t = some [(['{'], 1), (['x'], 1), (['\\'], 1), (['y'], 1), (['}'], 0), (['v'], 0), (['o'], 0), (['n'], 0)] ∧
+    parseName "Jean {x\\y}von Last".toList =
+      .ok ({ first := ["Jean".toList], middle := ["{x\\y}von".toList], last := ["Last".toList] }, false) ∧
+    parseName "Jean {xy}von Last".toList =
+      .ok ({ first := ["Jean".toList], prelast := ["{xy}von".toList], last := ["Last".toList] }, false) := by
   decide +kernel
 
 /-- A token whose braces nest deeper than the scanner follows them (more than 100 levels): its
